@@ -295,7 +295,8 @@ def gen_plan(prop, tier, rng, i):
                             "reverse": rng.random() < 0.5, "start": a, "end": b,
                             "flags": {"include_drf": rng.random() < 0.75, "include_dmd": rng.random() < 0.75,
                                       "include_drf_properties": tri(), "include_dmd_properties": tri()}})
-    plan = {"engine": "lssim", "tree": entries, "queries": queries, "readdir_seed": rng.randrange(2**32), "mutations": []}
+    plan = {"engine": "lssim", "tree": entries, "queries": queries, "readdir_seed": rng.randrange(2**32), "mutations": [],
+            "root_ts_name": rng.random() < 0.1}
     if i % 2 == 1:
         sds = [e["p"] for e in entries if e["t"] == "d" and RE_SUBDIR.match(os.path.basename(e["p"]))]
         for sd in rng.sample(sds, min(len(sds), rng.randrange(1, 4))):
@@ -364,7 +365,8 @@ def _check_order(res, yielded, reverse, root, q):
 def _run_c14(plan, res, sc):
     import digital_rf
 
-    root = os.path.join(sc, "tree")
+    # (an experiment directory may itself be named by its start time: 2014-03-09T12-00-00/ch0/...)
+    root = os.path.join(sc, "2014-03-09T12-00-00" if plan.get("root_ts_name") else "tree")
     build_tree(root, plan["tree"])
     model = TreeModel(plan["tree"])
     seams.install(root, plan.get("readdir_seed", 1))
@@ -527,6 +529,7 @@ def _gen_c18(rng, tier, i):
     flags = {"include_drf": rng.random() < 0.8, "include_dmd": rng.random() < 0.8,
              "include_drf_properties": tri(), "include_dmd_properties": tri()}
     chs = []
+    only_ = rng.random() < 0.2
     if rng.random() < 0.6:
         top = sorted(set(e["p"].split("/")[0] for e in entries)) + [r["cfg"]["channel"] for r in recs]
         nested = sorted(set(os.path.dirname(e["p"]) for e in entries if e["p"].count("/") >= 2 and e["t"] == "f"
@@ -537,7 +540,13 @@ def _gen_c18(rng, tier, i):
             chs = list(rng.choice(pairs))
             rng.shuffle(chs)
         # channel arguments must not contain one another (the transfers would overlap)
-        chs = [c for c in chs if not any(o != c and (c + "/").startswith(o + "/") for o in chs)]
+        if not only_:
+            chs = [c for c in chs if not any(o != c and (c + "/").startswith(o + "/") for o in chs)]
+        elif nested and rng.random() < 0.5:
+            # --only: a channel and one nested below it are two disjoint, non-recursive transfers
+            n_ = rng.choice(nested)
+            par_ = n_.split("/")[0]
+            chs = [par_, n_] if par_ in top else chs
         # the channel option is free text: trailing slash (tab completion), ./ prefix, doubled slash, comma lists
         deco = []
         for c in chs:
@@ -555,7 +564,7 @@ def _gen_c18(rng, tier, i):
     plan = {"engine": "lssim", "tree": entries, "recs": recs, "cmd": cmd, "flags": flags, "chs": chs,
             "src_alias": rng.random() < 0.25, "dest_alias": rng.random() < 0.2, "pre_dest": rng.randrange(2) if rng.random() < 0.25 else None, "pre_dest_kind": rng.choice(["short", "same_size"]),
             "timeform": rng.choice(["z", "z", "naive", "+0530", "-0800", "unix"]), "end_relative": rng.random() < 0.2,
-            "only": rng.random() < 0.2, "reverse": rng.random() < 0.3, "symbolic": cmd == "ln" and rng.random() < 0.5,
+            "only": only_, "reverse": rng.random() < 0.3, "symbolic": cmd == "ln" and rng.random() < 0.5,
             "start": None, "end": None, "readdir_seed": rng.randrange(2**32)}
     if rng.random() < 0.5:
         ts = _times(entries)
